@@ -46,11 +46,33 @@ class _Rename(ast.NodeTransformer):
             r._site = f"{self.site}:{r.lineno}"
         return r
 
-    def visit_Lambda(self, n):
+    def _scoped(self, n, bound: set):
+        """rename free variables inside a nested lambda / def (its own parameters and locals shadow)"""
+        sub = _Rename({k: v for k, v in self.mapping.items() if k not in bound},
+                      {k: v for k, v in self.renames.items() if k not in bound}, self.site)
+        if isinstance(n, ast.Lambda):
+            n.body = sub.visit(n.body)
+        else:
+            n.body = [sub.visit(st) for st in n.body]
+            if n.name in self.renames:
+                n.name = self.renames[n.name]
+        a = n.args
+        a.defaults = [self.visit(d) for d in a.defaults]
+        a.kw_defaults = [self.visit(d) if d is not None else None for d in a.kw_defaults]
         return n
 
+    def visit_Lambda(self, n):
+        a = n.args
+        bound = {x.arg for x in a.posonlyargs + a.args + a.kwonlyargs}
+        return self._scoped(n, bound)
+
     def visit_FunctionDef(self, n):
-        return n
+        a = n.args
+        bound = {x.arg for x in a.posonlyargs + a.args + a.kwonlyargs}
+        for st in n.body:
+            bound |= _assigned_names(st)
+        nonloc = {nm for st in ast.walk(n) if isinstance(st, ast.Nonlocal) for nm in st.names}
+        return self._scoped(n, bound - nonloc)
 
 
 def _assigned_names(node) -> set[str]:
@@ -366,9 +388,15 @@ class Inliner:
                         uses[x.id] = uses.get(x.id, 0) + 1
                 if any(not _is_simple(a) and uses.get(p, 0) > 1 for p, a in bound.items()):
                     return n
-                if _assigned_names(ex):        # walrus etc.
+                if any(isinstance(x, ast.NamedExpr) for x in ast.walk(ex)):
                     return n
-                new = _Rename(bound, {}, callee.module.rel).visit(copy.deepcopy(ex))
+                comp_vars = _assigned_names(ex)      # comprehension variables of the helper's expression
+                arg_names = {x.id for a in bound.values() for x in ast.walk(a) if isinstance(x, ast.Name)}
+                ren = {}
+                if comp_vars & (arg_names | set(bound)):
+                    outer.counter += 1
+                    ren = {v: f"{v}__i{outer.counter}" for v in comp_vars}
+                new = _Rename({k: v for k, v in bound.items() if k not in comp_vars}, ren, callee.module.rel).visit(copy.deepcopy(ex))
                 outer.inlined[stack[0]].append(callee.qual)
                 # helpers of helpers
                 return ast.copy_location(X().visit(new) if len(stack) < outer.max_depth else new, n)
